@@ -23,6 +23,9 @@ pub enum Prop {
 }
 
 pub struct Base {
+    /// large file: only the unmutated input, every field x boundary values and a
+    /// ladder of truncation lengths are generated (no per-byte sweeps)
+    pub big: bool,
     pub ty: Ty,
     pub shp: Vec<u8>,
     pub shx: Vec<u8>,
@@ -69,8 +72,107 @@ pub fn bases() -> Vec<Base> {
             let enc = codec::encode(&f);
             let order: Vec<usize> = (0..n).collect();
             let (shx, shx_fields) = codec::encode_shx(&f, &enc, &order);
-            out.push(Base { ty, shp: enc.bytes, shx, shp_fields: enc.fields, shx_fields });
+            out.push(Base { big: false, ty, shp: enc.bytes, shx, shp_fields: enc.fields, shx_fields });
         }
+    }
+    out.extend(real_bases());
+    // large valid files: one long part per record, sizes beyond 8 Ki and 64 Ki points
+    for ty in [Ty::MultipointZ, Ty::PolylineZ, Ty::PolygonM, Ty::Multipatch, Ty::Polyline] {
+        for n in if std::env::var("VCHECK_E3_HUGE").is_ok() { vec![8193usize, 65537] } else { vec![8193usize] } {
+            let shape = crate::structs::sized(ty, n);
+            let bbox = codec::true_bbox(&shape);
+            let f = MFile { ty, header_box: [0.0; 8], records: vec![MRecord { number: 1, body: MBody::Shape { shape, bbox, with_m: true } }, MRecord { number: 2, body: MBody::Null }], trailing: vec![] };
+            let enc = codec::encode(&f);
+            let (shx, shx_fields) = codec::encode_shx(&f, &enc, &[0, 1]);
+            out.push(Base { big: true, ty, shp: enc.bytes, shx, shp_fields: enc.fields, shx_fields });
+        }
+    }
+    out
+}
+
+fn fld(off: usize, be: bool, name: String, class: FieldClass) -> Field {
+    Field { off, big_endian: be, name, class }
+}
+
+/// Field map of an arbitrary (valid) .shp, derived with RefCodec's scan.
+fn fields_of(shp: &[u8]) -> Vec<Field> {
+    let mut f = vec![
+        fld(0, true, "hdr.filecode".into(), FieldClass::FileCode),
+        fld(24, true, "hdr.length".into(), FieldClass::FileLength),
+        fld(28, false, "hdr.version".into(), FieldClass::Version),
+        fld(32, false, "hdr.type".into(), FieldClass::HeaderType),
+    ];
+    if let Ok(df) = codec::decode_file(shp, &codec::DecodeOpts { strict: false }) {
+        for (i, r) in df.records.iter().enumerate().take(4) {
+            let o = r.offset;
+            f.push(fld(o, true, format!("rec{}.number", i), FieldClass::RecNumber));
+            f.push(fld(o + 4, true, format!("rec{}.length", i), FieldClass::RecLength));
+            f.push(fld(o + 8, false, format!("rec{}.type", i), FieldClass::RecType));
+            let ty = r.read.shape.ty;
+            let c = o + 12;
+            match ty.family() {
+                Family::Multipoint => f.push(fld(c + 32, false, format!("rec{}.numpoints", i), FieldClass::NumPoints)),
+                Family::Polyline | Family::Polygon | Family::Multipatch => {
+                    f.push(fld(c + 32, false, format!("rec{}.numparts", i), FieldClass::NumParts));
+                    f.push(fld(c + 36, false, format!("rec{}.numpoints", i), FieldClass::NumPoints));
+                    let np = r.read.shape.parts.len().min(6);
+                    for k in 0..np {
+                        f.push(fld(c + 40 + 4 * k, false, format!("rec{}.part{}", i, k), FieldClass::PartOffset));
+                    }
+                    if ty == Ty::Multipatch {
+                        let all = r.read.shape.parts.len();
+                        for k in 0..np {
+                            f.push(fld(c + 40 + 4 * all + 4 * k, false, format!("rec{}.kind{}", i, k), FieldClass::PatchKind));
+                        }
+                    }
+                }
+                _ => {}
+            }
+        }
+    }
+    f.retain(|x| x.off + 4 <= shp.len());
+    f
+}
+
+/// The library's own fixture files (written by other producers): real-world
+/// layouts as additional base files.  Skipped silently if the directory is absent.
+fn real_bases() -> Vec<Base> {
+    let mut out = vec![];
+    let dir = std::path::Path::new("/repo/tests/data");
+    let mut names: Vec<std::path::PathBuf> = match std::fs::read_dir(dir) {
+        Ok(rd) => rd.flatten().map(|e| e.path()).filter(|p| p.extension().and_then(|x| x.to_str()) == Some("shp")).collect(),
+        Err(_) => return out,
+    };
+    names.sort();
+    for p in names {
+        let shp = match std::fs::read(&p) {
+            Ok(b) if b.len() >= 100 && b.len() <= 4096 => b,
+            _ => continue, // the 27 KiB fixture would dominate the enumeration
+        };
+        let ty = shp.get(32..36).and_then(|b| Ty::from_code(i32::from_le_bytes(b.try_into().unwrap()))).unwrap_or(Ty::Null);
+        let shx = std::fs::read(p.with_extension("shx")).ok().unwrap_or_else(|| {
+            // synthesise the index from RefCodec's scan
+            let mut x = shp[..100].to_vec();
+            let mut n = 0;
+            if let Ok(df) = codec::decode_file(&shp, &codec::DecodeOpts { strict: false }) {
+                for r in &df.records {
+                    x.extend(((r.offset / 2) as i32).to_be_bytes());
+                    x.extend(r.content_words.to_be_bytes());
+                    n += 1;
+                }
+            }
+            x[24..28].copy_from_slice(&((50 + 4 * n) as i32).to_be_bytes());
+            x
+        });
+        let shp_fields = fields_of(&shp);
+        let mut shx_fields = vec![fld(0, true, "shx.filecode".into(), FieldClass::FileCode), fld(24, true, "shx.length".into(), FieldClass::FileLength), fld(32, false, "shx.type".into(), FieldClass::HeaderType)];
+        let mut o = 100;
+        while o + 8 <= shx.len() && o < 100 + 8 * 4 {
+            shx_fields.push(fld(o, true, format!("shx.entry{}.offset", (o - 100) / 8), FieldClass::IdxOffset));
+            shx_fields.push(fld(o + 4, true, format!("shx.entry{}.length", (o - 100) / 8), FieldClass::IdxLength));
+            o += 8;
+        }
+        out.push(Base { big: false, ty, shp, shx, shp_fields, shx_fields });
     }
     out
 }
@@ -112,11 +214,13 @@ fn b32(orig: i32) -> Vec<i32> {
         i32::MAX - 1, i32::MAX, i32::MIN, i32::MIN + 1, -(1 << 30), -8,
         orig.wrapping_add(1), orig.wrapping_sub(1), orig.wrapping_add(2), orig.wrapping_sub(2), orig.wrapping_mul(2), orig / 2,
     ];
-    // every power of two and its neighbours, both signs
+    // every power of two and its neighbours, both signs; the original value shifted by
+    // every power of two (size checks done modulo 2^32 accept such counts)
     for k in 0..31 {
         let p = 1i32 << k;
-        v.extend([p - 1, p, p + 1, -p, -p - 1, -p + 1]);
+        v.extend([p - 1, p, p + 1, -p, -p - 1, -p + 1, orig.wrapping_add(p), orig.wrapping_sub(p)]);
     }
+    v.push(orig.wrapping_add(i32::MIN));
     v.sort_unstable();
     v.dedup();
     v.retain(|x| *x != orig);
@@ -153,11 +257,36 @@ pub fn inputs(tier: Tier, bs: &[Base]) -> Vec<Input> {
             let (bytes, fields) = if on_shp { (&b.shp, &b.shp_fields) } else { (&b.shx, &b.shx_fields) };
             // 1/2: every field x B32
             for (fi, f) in fields.iter().enumerate() {
-                for val in b32(rd_field(bytes, f)) {
+                let vals = if b.big {
+                    let o = rd_field(bytes, f);
+                    vec![0, 1, -1, 2, 7, 255, 1 << 16, 1 << 28, (1 << 30) - 1, 1 << 30, i32::MAX, i32::MIN, o.wrapping_add(1), o.wrapping_sub(1), o.wrapping_mul(2), o / 2, o.wrapping_add(1 << 28), o.wrapping_add(1 << 27)]
+                } else {
+                    b32(rd_field(bytes, f))
+                };
+                for val in vals {
                     v.push(Input { base: bi, on_shp, m: Mutation::Field { idx: fi, value: val } });
                 }
             }
             // 3: truncations and extensions
+            if b.big {
+                // around every power of two, around the ends of the blocks of the record, the last 40 bytes
+                let mut cuts: Vec<usize> = vec![];
+                for k in 6..24 {
+                    for d in [0usize, 1, 2] {
+                        cuts.push((1usize << k) + d);
+                        cuts.push((1usize << k).saturating_sub(d));
+                    }
+                }
+                for j in 1..=40 {
+                    cuts.push(bytes.len().saturating_sub(j));
+                }
+                cuts.sort_unstable();
+                cuts.dedup();
+                for l in cuts.into_iter().filter(|l| *l < bytes.len()) {
+                    v.push(Input { base: bi, on_shp, m: Mutation::Truncate(l) });
+                }
+                continue;
+            }
             for l in 0..bytes.len() {
                 v.push(Input { base: bi, on_shp, m: Mutation::Truncate(l) });
             }
@@ -188,6 +317,9 @@ pub fn inputs(tier: Tier, bs: &[Base]) -> Vec<Input> {
                 }
             }
         }
+        if b.big {
+            continue;
+        }
         // 6: tails
         for p in 0..5u8 {
             v.push(Input { base: bi, on_shp: true, m: Mutation::Tail(p) });
@@ -203,7 +335,7 @@ pub fn inputs(tier: Tier, bs: &[Base]) -> Vec<Input> {
         // ladders
         let kmax = tier.pick(27, 30);
         for k in 10..=kmax {
-            for which in 0..4u8 {
+            for which in [0u8, 1, 2, 3, 7] {
                 v.push(Input { base: bi, on_shp: which != 3, m: Mutation::Ladder { k, which } });
             }
         }
@@ -326,8 +458,11 @@ pub fn materialise(bs: &[Base], inp: &Input) -> Option<(Vec<u8>, Vec<u8>)> {
                     if fam == Family::Multipoint && *which != 0 {
                         return None;
                     }
+                    if *which == 7 && fam == Family::Multipoint {
+                        return None;
+                    }
                     let (parts, points): (i64, i64) = match which {
-                        0 => (1, n),
+                        0 | 7 => (1, n),
                         1 => (n, 0),
                         _ => (n, n),
                     };
@@ -356,8 +491,18 @@ pub fn materialise(bs: &[Base], inp: &Input) -> Option<(Vec<u8>, Vec<u8>)> {
                         bytes.extend((parts as i32).to_le_bytes());
                     }
                     bytes.extend((points as i32).to_le_bytes());
-                    // a little data behind it, nothing like what is declared
-                    bytes.extend([0u8; 24]);
+                    if *which == 7 {
+                        // the single part starts at num_points: it is empty, no x/y data is needed,
+                        // the Z / M range blocks are there, the per-point arrays are not
+                        bytes.extend((points as i32).to_le_bytes());
+                        if fam == Family::Multipatch {
+                            bytes.extend(5i32.to_le_bytes());
+                        }
+                        bytes.extend([0u8; 64]);
+                    } else {
+                        // a little data behind it, nothing like what is declared
+                        bytes.extend([0u8; 24]);
+                    }
                 }
             }
         }
@@ -672,7 +817,7 @@ pub fn check(prop: Prop, tier: Tier) -> i32 {
     let started = Instant::now();
     let bs = bases();
     let ins = inputs(tier, &bs);
-    let chunk = 2000usize;
+    let chunk = 1000usize;
     let nblocks = (ins.len() + chunk - 1) / chunk;
     let (agg, capped) = par_blocks(nblocks, None, |b, ctx, tick| {
         supervise(prop, tier, &ins, b * chunk, ((b + 1) * chunk).min(ins.len()), ctx, tick);
@@ -686,7 +831,7 @@ pub fn check(prop: Prop, tier: Tier) -> i32 {
     let (id, rule, level) = match prop {
         Prop::C07 => (
             "C07",
-            "28 base files (14 type codes x {1,2} records, RefCodec, multi-part, M block present) with their .shx; every 32-bit field (file code, length, version, type, record number, content length, record type, part count, point count, every part offset, every patch kind, every index offset/length) x boundary values B32; every truncation length and extensions by {1,2,7,8,100} bytes of {00,ff}; every single-bit flip; valid file code + 96-byte pattern tails; other base files shifted by 1-7 bytes; (thorough) interacting field pairs x 9x9 values; consistent-but-unbacked count ladders; each input driven through new/iter_shapes/iter_shapes_as/read/with_shx/shape_count/size_hint/next/read_nth_shape/seek in a worker subprocess with overflow checks and debug assertions on; non-trivial = any mutation",
+            "42 synthetic base files (14 type codes x {1,2,3} records, RefCodec, up to 4 parts, M block present) plus the library's own fixture files under tests/data (other producers' layouts, <= 4 KiB) with their .shx; every 32-bit field (file code, length, version, type, record number, content length, record type, part count, point count, every part offset, every patch kind, every index offset/length) x boundary values B32; every truncation length and extensions by {1,2,7,8,100} bytes of {00,ff}; every single-bit flip; valid file code + 96-byte pattern tails; other base files shifted by 1-7 bytes; (thorough) interacting field pairs x 9x9 values; consistent-but-unbacked count ladders; each input driven through new/iter_shapes/iter_shapes_as/read/with_shx/shape_count/size_hint/next/read_nth_shape/seek in a worker subprocess with overflow checks and debug assertions on; non-trivial = any mutation",
             "model_checking",
         ),
         Prop::C17 => (
